@@ -22,6 +22,10 @@ def obligations(tier):
     obs += ob('wfs_pop_all_iter', 0, 2, 0, ['p1', 'p2', 'c1'], R,
               desc='wfstack: pop then __cds_wfs_pop_all + cds_wfs_for_each_blocking racing incomplete pushes (iteration must wait, not run past)',
               wit=['pop_all returned two nodes', 'pop_all returned an empty list'])
+    obs += ob('wfs_pop_all_iter_nonblocking', 0, 8, 0, ['p1', 'p2', 'c1'], R,
+              desc='wfstack: __cds_wfs_pop_all + cds_wfs_first / cds_wfs_next_nonblocking racing incomplete pushes: WOULDBLOCK only for an in-flight push, '
+                   'retried, the walk still visits every node of the list once in LIFO order (conservation after drain)',
+              wit=['non-blocking walk visited three nodes', 'non-blocking iteration reported WOULDBLOCK'])
     obs += ob('wfs_mutex_pop_vs_pop_all', 0, 3, 4, ['p1', 'p2', 'c1', 'c2'], R,
               desc='wfstack: cds_wfs_pop_blocking vs cds_wfs_pop_all_blocking (mutex-protected) with 2 pushers',
               wit=['locked pop_all returned at least two nodes'])
